@@ -242,7 +242,7 @@ def build_rw(spec):
             return Fail("stationary:value")
         if float(np.abs(pi @ K - pi).max()) > 1e-6:
             return Fail("stationary:not-fixed-by-K")
-        for start in ([1.0] + [0.0] * (N - 1), [1.0 / N] * N):
+        for start in ([1.0] + [0.0] * (N - 1), [1.0 / N] * N, [0] * (N - 1) + [1]):  # the last one is an integer array
             dens = randwalk.random_walk_density(h, np.array(start), 3)
             if len(dens) != 4:
                 return Fail("density:length")
